@@ -378,3 +378,87 @@ func TestC20_GsxHooks(t *testing.T) {
 		}
 	})
 }
+
+// TestC16_GsxCleanupRace: CleanupChannel racing with an in-flight incoming-request
+// hook (the handler is parked inside OnRequestReceived / OnResponseReceived while
+// another goroutine cleans the channel up). Whatever the order, after both have
+// returned the channel is cleaned up and its request must be silent.
+func TestC16_GsxCleanupRace(t *testing.T) {
+	sp := stats.For("C16")
+	rapid.Check(t, func(t *rapid.T) {
+		r := newGsRig(t)
+		m := &gsModel{t: t, r: r, owner: map[graphsync.RequestID]*gch{}}
+		role := rapid.SampledFrom([]string{"receivePull", "createPush"}).Draw(t, "role")
+		c := &gch{role: role, other: gen.Peer(1), tid: 10}
+		c.chid = chidFor(r.self, role, c.other, c.tid)
+		withStore := rapid.Bool().Draw(t, "store")
+		if withStore {
+			_ = r.tr.UseStore(c.chid, cidLinkSystem())
+			c.store, c.tracked = true, true
+		}
+		earlier := rapid.IntRange(0, 2).Draw(t, "earlierRequests")
+		m.chans = []*gch{c}
+		for i := 0; i < earlier; i++ {
+			m.opIncoming(c, true, false)
+		}
+		park := time.Duration(rapid.IntRange(0, 3).Draw(t, "parkMs")) * time.Millisecond
+		cleaned := make(chan struct{})
+		var once bool
+		r.ev.OnCall = func(call dbl.EvCall) {
+			if once || (call.Kind != "request" && call.Kind != "response") {
+				return
+			}
+			once = true
+			go func() {
+				r.tr.CleanupChannel(c.chid)
+				close(cleaned)
+			}()
+			// stay inside the handler while the cleanup tries to run
+			select {
+			case <-cleaned:
+			case <-time.After(park + 200*time.Microsecond):
+			}
+		}
+		id := graphsync.NewRequestID()
+		rd := &dbl.ReqData{RID: id, Exts: dbl.ExtMap([]graphsync.ExtensionData{{Name: extension.ExtensionDataTransfer1_1, Data: c.openMsg(earlier > 0).ToIPLD()}})}
+		m.logf("incoming request %s for %s while CleanupChannel runs concurrently (%d earlier requests, store=%v)", id, chidStr(c.chid), earlier, withStore)
+		if !within(func() { r.gs.IncomingRequestHook(c.other, rd, &dbl.InReqActions{}) }) {
+			m.fail("C20/hook-did-not-return", "incoming-request hook did not return while a cleanup ran concurrently")
+		}
+		select {
+		case <-cleaned:
+		case <-time.After(watchdog):
+			m.fail("C20/cleanup-did-not-return", "CleanupChannel did not return after the hook finished")
+		}
+		r.ev.OnCall = nil
+		// the channel has been cleaned up: every callback for its requests must be silent now
+		e0 := r.ev.Len()
+		ids := []graphsync.RequestID{id}
+		for rid := range m.owner {
+			ids = append(ids, rid)
+		}
+		for _, rid := range ids {
+			b := &dbl.BlkData{L: linkOf(simpleCid(3)), Size: 10, OnWire: 10, Idx: 1}
+			r.gs.IncomingProcessingListener(c.other, &dbl.ReqData{RID: rid}, 1)
+			r.gs.OutgoingBlockHook(c.other, &dbl.ReqData{RID: rid}, b, &dbl.OutBlockActions{})
+			r.gs.BlockSentListener(c.other, &dbl.ReqData{RID: rid}, b)
+			r.gs.NetworkErrorListener(c.other, &dbl.ReqData{RID: rid}, errors.New("net"))
+			r.gs.CompletedResponseListener(c.other, &dbl.ReqData{RID: rid}, graphsync.RequestCompletedFull)
+		}
+		r.gs.ReceiverErrorListener(c.other, errors.New("net"))
+		time.Sleep(200 * time.Microsecond)
+		if got := r.ev.Since(e0); len(got) != 0 {
+			m.fail("C16/event-after-cleanup", "%d channel event(s) after the channel was cleaned up (first: %s for %s): a request mapping survived the cleanup", len(got), got[0].Kind, chidStr(got[0].Chid))
+		}
+		if withStore && len(r.gs.Stores()) != 0 {
+			m.fail("C16/store-lifetime", "the channel's store is still registered after cleanup")
+		}
+		sp.Eval()
+		fp := stats.FP("cleanup-race", role, earlier, withStore, park)
+		sp.Nontrivial(fp)
+		sp.Class("cleanup_racing_with_incoming_request_hook")
+		if sp.WantSample() {
+			sp.Sample(fp, map[string]any{"engine": "gsx", "history": m.log})
+		}
+	})
+}
